@@ -5,5 +5,6 @@ CONSTANTS
   MaxRpc = 2
   InLock = TRUE
   MaxWedged = 1
+  AllowReset = TRUE
 INVARIANTS TypeOK Sync CanMakeCallsConsistent ServedByLive UnavailOnlyIfEmpty Resumable NoStaleReady
 CHECK_DEADLOCK FALSE
